@@ -34,7 +34,8 @@ META = {
                    "Limit.ok/inc/_idx_to_sb_idx/Limits.setLimit: the set of limit holders checked equals the set incremented, "
                    "ancestor chains are walked completely, the upper-limit comparison is strict, and no path answers "
                    "'allowed' merely because the slot lies beyond the horizon known at parse time."
-                   " Also: the period index is typed as a difference of calendar dates (returns enumerated per period value by three-valued evaluation of the branch tests) and must depend on the interval start; Limit.copy passes every constructor field and aliases no counter list; the booking guard facts of C03.",
+                   " Also: the period index is typed as a difference of calendar dates (returns enumerated per period value by three-valued evaluation of the branch tests) and must depend on the interval start; Limit.copy passes every constructor field and aliases no counter list; the booking guard facts of C03."
+                   " Round 3: duration-unit cross-check (minutes are not months), process-state rule.",
     "assumptions": [],
 }
 
